@@ -45,6 +45,9 @@ def check(repo: Repo, rep, tier):
 
     import_only(repo, rep)
     import_scope(repo, rep)
+    from .C01 import import_step
+
+    import_step(repo, rep)
 
 
 def steps_of(repo: Repo, key: str) -> Dict[str, list]:
